@@ -131,6 +131,8 @@ func (t *T) str() string {
 		return "&" + arg(0) + "." + t.Aux
 	case "iaddr":
 		return "&" + arg(0) + "[" + arg(1) + "]"
+	case "mapview":
+		return "clone#" + strconv.Itoa(t.Inst) + "(" + arg(0) + ")"
 	case "typeconst":
 		return "type:" + t.Aux
 	case "constmap":
@@ -699,6 +701,8 @@ func (st *pxState) substLens(t *T) *T {
 
 func (r *pxRun) branch(st *pxState, fr *pxFrame, b *ssa.BasicBlock, cond *T, done func(*pxState, *pxFrame, []*T, string)) {
 	cond = st.substLens(cond)
+	cond = r.tokenTypeTest(st, cond)
+	cond = r.zeroOptionCond(st, cond)
 	if bv, ok := cond.boolVal(); ok {
 		i := 1
 		if bv {
@@ -1099,6 +1103,21 @@ func (r *pxRun) eval(st *pxState, fr *pxFrame, v ssa.Value) *T {
 		return indexTerm(r.val(st, fr, x.X), r.val(st, fr, x.Index), x.Type())
 	case *ssa.Lookup:
 		m, k := r.val(st, fr, x.X), r.val(st, fr, x.Index)
+		if m.Op == "mapview" && len(m.A) == 1 {
+			deleted := false
+			dk := "mv" + strconv.Itoa(m.Inst) + "#del"
+			if v, ok := st.mem[dk+"n"]; ok {
+				y, _ := v.intVal()
+				for j := 0; j < int(y); j++ {
+					if d, ok := st.mem[dk+strconv.Itoa(j)]; ok && d.String() == k.String() {
+						deleted = true
+					}
+				}
+			}
+			if !deleted {
+				m = m.A[0]
+			}
+		}
 		if r.cfg.Bounds {
 			if bt, ok := x.X.Type().Underlying().(*types.Basic); ok && bt.Info()&types.IsString != 0 {
 				st.emit(Ev{Kind: "index", In: x, Within: fr.fn, Args: []*T{m, k}, Depth: fr.depth})
@@ -1232,6 +1251,10 @@ func (r *pxRun) eval(st *pxState, fr *pxFrame, v ssa.Value) *T {
 		a := r.val(st, fr, x.X)
 		tn := typeName(x.AssertedType)
 		val := &T{Op: "assert", A: []*T{a}, Aux: tn, Typ: x.AssertedType}
+		if types.IsInterface(x.AssertedType) {
+			// an assertion to another interface type yields the same value (w.(io.StringWriter) is w)
+			val = a
+		}
 		if x.CommaOk {
 			return &T{Op: "tuple", A: []*T{val, {Op: "is", A: []*T{a}, Aux: tn, Typ: types.Typ[types.Bool]}}, Typ: x.Type()}
 		}
@@ -1361,7 +1384,14 @@ func (r *pxRun) eval(st *pxState, fr *pxFrame, v ssa.Value) *T {
 	case *ssa.Range:
 		*st.inst++
 		over := r.val(st, fr, x.X)
+		var view *T
+		if over.Op == "mapview" && len(over.A) == 1 {
+			view, over = over, over.A[0]
+		}
 		rt := &T{Op: "range", A: []*T{over}, Inst: *st.inst, Typ: x.Type()}
+		if view != nil {
+			st.mem["r"+strconv.Itoa(rt.Inst)+"#view"] = view
+		}
 		if over.Op == "make" && isMapType(over.Typ) {
 			// a path-local map: iterate the entries it has now (in insertion order, as a canonical order)
 			rt.HasEl = true
@@ -1390,6 +1420,26 @@ func (r *pxRun) eval(st *pxState, fr *pxFrame, v ssa.Value) *T {
 		tu := &T{Op: "tuple", Typ: x.Type()}
 		for i := 0; i < tt.Len(); i++ {
 			tu.A = append(tu.A, &T{Op: "extract", A: []*T{n}, Aux: strconv.Itoa(i), Typ: tt.At(i).Type()})
+		}
+		// ranging over a clone from which keys were deleted: an entry that is yielded has none of them
+		if it.Op == "range" {
+			if view, ok := st.mem["r"+strconv.Itoa(it.Inst)+"#view"]; ok && tt.Len() >= 2 {
+				dk := "mv" + strconv.Itoa(view.Inst) + "#del"
+				nd := 0
+				if v, ok := st.mem[dk+"n"]; ok {
+					y, _ := v.intVal()
+					nd = int(y)
+				}
+				for j := 0; j < nd; j++ {
+					if d, ok := st.mem[dk+strconv.Itoa(j)]; ok {
+						atom := eqAtom(d.String(), tu.A[1].String())
+						if _, had := st.facts[atom]; !had {
+							st.order = append(st.order, atom)
+						}
+						st.facts[atom] = false
+					}
+				}
+			}
 		}
 		return tu
 	case *ssa.Phi:
@@ -1439,6 +1489,14 @@ func convTerm(a *T, to types.Type) *T {
 						return a.A[0]
 					}
 				}
+			}
+		}
+	}
+	// string(r) of an integer is the text of a code point, a value of another kind altogether
+	if a.Typ != nil {
+		if fb, ok := a.Typ.Underlying().(*types.Basic); ok && fb.Info()&types.IsInteger != 0 {
+			if tb, ok := to.Underlying().(*types.Basic); ok && tb.Info()&types.IsString != 0 {
+				return &T{Op: "call", Aux: "conv<string>", A: []*T{a}, Typ: to}
 			}
 		}
 	}
@@ -1809,9 +1867,7 @@ func pxPureCallee(sc *ssa.Function) bool {
 		return false
 	}
 	pk := ""
-	if sc.Pkg != nil {
-		pk = sc.Pkg.Pkg.Path()
-	}
+	pk = pkgPathOf(sc)
 	n := sc.String()
 	return pxPure[n] || purePkgs[pk] || pk == "unicode" || pk == "unicode/utf8" ||
 		n == "(*bytes.Buffer).Bytes" || n == "(*bytes.Buffer).String" || n == "(*bytes.Buffer).Len" || n == "(*strings.Builder).String" || n == "(*strings.Builder).Len"
@@ -1885,6 +1941,17 @@ func (r *pxRun) call(st *pxState, fr *pxFrame, x *ssa.Call, k func(*pxState, *px
 				st.mapDel(args[0], args[1])
 				return bind(&T{Op: "tuple", Typ: resTyp})
 			}
+			if args[0].Op == "mapview" {
+				k := "mv" + strconv.Itoa(args[0].Inst) + "#del"
+				n := 0
+				if v, ok := st.mem[k+"n"]; ok {
+					x, _ := v.intVal()
+					n = int(x)
+				}
+				st.mem[k+strconv.Itoa(n)] = args[1]
+				st.mem[k+"n"] = cInt(int64(n + 1))
+				return bind(&T{Op: "tuple", Typ: resTyp})
+			}
 			st.emit(Ev{Kind: "call", Name: "builtin.delete", In: x, Within: fr.fn, Args: args, Depth: fr.depth})
 			return bind(&T{Op: "unknown", Aux: "delete", Typ: resTyp})
 		case "copy", "clear":
@@ -1922,7 +1989,15 @@ func (r *pxRun) call(st *pxState, fr *pxFrame, x *ssa.Call, k func(*pxState, *px
 	}
 	if cc.IsInvoke() {
 		recv := r.val(st, fr, cc.Value)
-		if s := sinkOf(x); s != nil {
+		// a writer made on this path whose type is the module's own (a byte collector with a Write
+		// method): its method is evaluated like any other helper, what it stores stays on the path
+		localWriter := false
+		if recv.Op == "alloc" && !isPrivBuf(recv) && recv.Typ != nil && !types.IsInterface(recv.Typ) && fr.depth < r.cfg.MaxDepth {
+			if fn := r.c.Prog.LookupMethod(recv.Typ, cc.Method.Pkg(), cc.Method.Name()); fn != nil && fn.Blocks != nil && r.c.inModule(fn) {
+				localWriter = true
+			}
+		}
+		if s := sinkOf(x); s != nil && !localWriter {
 			if isPrivBuf(recv) {
 				st.bufAppend(recv, args[0])
 				if r.cfg.LocalWrites {
@@ -1973,6 +2048,12 @@ func (r *pxRun) call(st *pxState, fr *pxFrame, x *ssa.Call, k func(*pxState, *px
 	}
 	name := fname(callee)
 	inModule := callee.Blocks != nil && r.c.inModule(callee)
+	// the generic algorithm packages of the library are instantiated with bodies of their own:
+	// their read-only routines (slices.Contains, Index, ContainsFunc, IndexFunc, Equal, cmp.Compare …)
+	// are evaluated like helpers of the module; sorting and the mutators stay library calls
+	if !inModule && callee.Blocks != nil && inlinableStd(callee) && fr.depth < r.cfg.MaxDepth+2 {
+		inModule = true
+	}
 	if !inModule {
 		// external
 		// reflect.TypeOf(x) where the path knows the dynamic type of x (from a type test, or as the
@@ -1996,6 +2077,20 @@ func (r *pxRun) call(st *pxState, fr *pxFrame, x *ssa.Call, k func(*pxState, *px
 			if neg > 0 {
 				return bind(&T{Op: "typeconst", Aux: "?other(" + as + ")", Typ: resTyp})
 			}
+		}
+		// maps.Clone(m): a path-local map is copied entry by entry; of any other map the clone is a
+		// view — the entries of m minus the keys deleted from the clone afterwards
+		if baseFuncName(callee) == "maps.Clone" && len(args) == 1 {
+			*st.inst++
+			if args[0].Op == "make" && isMapType(args[0].Typ) {
+				nm := &T{Op: "make", Inst: *st.inst, Typ: resTyp}
+				es := st.mapEntries(args[0])
+				for i := 0; i+1 < len(es); i += 2 {
+					st.mapSet(nm, es[i], es[i+1])
+				}
+				return bind(nm)
+			}
+			return bind(&T{Op: "mapview", A: []*T{args[0]}, Inst: *st.inst, Typ: resTyp})
 		}
 		// a buffer made by the library constructor is a private buffer like &bytes.Buffer{}: empty for
 		// a fresh zero-length slice (pre-sizing), otherwise starting with the given text
@@ -2805,4 +2900,118 @@ func intBits(b *types.Basic) int {
 		return 32
 	}
 	return 64
+}
+
+// inlinableStd: an instantiated routine of slices / maps / cmp that only reads its arguments and
+// whose body is plain Go (no runtime intrinsics).
+func inlinableStd(f *ssa.Function) bool {
+	pk := pkgPathOf(f)
+	if pk != "slices" && pk != "maps" && pk != "cmp" {
+		return false
+	}
+	n := baseFuncName(f)
+	if stdMutators[n] {
+		return false
+	}
+	switch n {
+	case "maps.Clone", "maps.Keys", "maps.Values", "maps.All", "maps.Collect", "slices.Sorted", "slices.SortedFunc", "slices.SortedStableFunc", "slices.Collect", "slices.Values", "slices.All",
+		"slices.BinarySearch", "slices.BinarySearchFunc", "slices.Clone", "slices.Concat", "slices.Repeat", "slices.Chunk":
+		return false
+	}
+	return true
+}
+
+// tokenTypeTest: a comma-ok type test of a token's content, on a path that knows the token's type,
+// is decided by how tokens are built: the token struct and its fields are unexported, so every token
+// there is was made by one of the package's own builders, and those give each token type content of
+// one static type (the table of T-TOKCONTENT). `s, ok := t.content.(string)` under typ == "package"
+// is ok; the branch for !ok does not exist.
+func (r *pxRun) tokenTypeTest(st *pxState, cond *T) *T {
+	t, neg := cond, false
+	for t != nil && t.Op == "not" && len(t.A) == 1 {
+		t, neg = t.A[0], !neg
+	}
+	if t == nil || t.Op != "is" || len(t.A) != 1 || t.A[0].Op != "field" || t.A[0].Aux != "content" || len(t.A[0].A) != 1 {
+		return cond
+	}
+	x := t.A[0].A[0].String()
+	typ := ""
+	for atom, pol := range st.facts {
+		if pol && strings.HasPrefix(atom, `eq("`) && strings.HasSuffix(atom, `",`+x+`.typ)`) {
+			typ = atom[4 : len(atom)-len(`",`+x+`.typ)`)]
+		}
+	}
+	if typ == "" {
+		return cond
+	}
+	inv := r.c.tokenContentInvariant()
+	set := inv[typ]
+	if len(set) == 0 || set["?"] {
+		return cond // nothing known, or content of statically unknown type (a literal's value)
+	}
+	want := normTypeName(t.Aux)
+	val, known := false, false
+	if set[want] && len(set) == 1 {
+		val, known = true, true
+	} else if !set[want] {
+		val, known = false, true
+	}
+	if !known {
+		return cond
+	}
+	if neg {
+		val = !val
+	}
+	return cBool(val)
+}
+
+func normTypeName(s string) string {
+	switch s {
+	case "rune", "untyped rune":
+		return "int32"
+	case "byte":
+		return "uint8"
+	case "untyped string":
+		return "string"
+	}
+	return s
+}
+
+// tokenContentInvariant: token type -> the static types of the content the package's builders give
+// tokens of that type. Empty while it is being computed (the builders are themselves evaluated on
+// paths) and when some builder's token type is not a constant.
+func (c *Ctx) tokenContentInvariant() map[string]map[string]bool {
+	if v, ok := c.extra("tokenContentInvariant"); ok {
+		return v.(map[string]map[string]bool)
+	}
+	c.setExtra("tokenContentInvariant", map[string]map[string]bool{}) // guard against recursion
+	out := map[string]map[string]bool{}
+	okAll := true
+	for _, bt := range c.allBuiltTokens() {
+		if !bt.ok {
+			okAll = false
+			break
+		}
+		if out[bt.typ] == nil {
+			out[bt.typ] = map[string]bool{}
+		}
+		if bt.content == nil || bt.content.Nil {
+			out[bt.typ]["<nil>"] = true
+			continue
+		}
+		if bt.content.Typ == nil {
+			out[bt.typ]["?"] = true
+			continue
+		}
+		tn := normTypeName(types.TypeString(bt.content.Typ, shortQual))
+		if types.IsInterface(bt.content.Typ) {
+			tn = "?" // content of statically unknown type (Lit takes interface{})
+		}
+		out[bt.typ][tn] = true
+	}
+	if !okAll {
+		out = map[string]map[string]bool{}
+	}
+	c.setExtra("tokenContentInvariant", out)
+	return out
 }
